@@ -105,7 +105,8 @@ ExpectedBloom(o, logs) == UNION {ToSet(o.logBits[i]) : i \in 1..Len(o.logBits)}
 
 EthCheck(e, res) ==
   LET t == e.t  o == e.o  r == e.r IN
-  IF ~res.cons THEN <<"Frames", "frames-inconsistent-with-program">>
+  IF ~res.cons THEN (IF o.root.st = "notrun" THEN <<"Admit", "admitted-by-the-model-but-never-run">>
+                     ELSE <<"Frames", "frames-inconsistent-with-program">>)
   ELSE IF res.class \in {"dropped", "ante"} THEN
        (IF r.code = 0 THEN <<"Admit", "rejected-but-code-0">>
         ELSE IF r.hasEthEvent THEN <<"Admit", "rejected-but-ethereum_tx-event">>
